@@ -127,7 +127,10 @@ def _fate_of_local(prog, body, local, seen, proj_prefix=()):
             rp = P(rv["place"])
             if tuple(rp[1]) == proj_prefix:
                 # a match / if-let; payload reads are found by the operand/ref cases
-                fates.append(("dropped:match-without-err-use", "matched but the Err payload is never read"))
+                if _err_arm_supplies_value(body, b, lhs):
+                    fates.append(("dropped:match-default", "matched; the Err arm supplies a value in place of the Ok payload"))
+                else:
+                    fates.append(("dropped:match-without-err-use", "matched but the Err payload is never read"))
     if not fates:
         return "dropped:unused", "value is never consumed"
     # "matched" beats the placeholder produced by its own discriminant read
@@ -174,3 +177,73 @@ def _payload_returned(body, local, depth=5):
             if P(node["lhs"]) == (0, ()):
                 return True
     return False
+
+
+def _err_arm_supplies_value(body, bb, discr_lhs):
+    """`match r { Ok(v) => v, Err(_) => dflt }`: the blocks only the Err side runs and the blocks only the Ok side runs
+    assign a common (non-unit, non-flag) local - the error is replaced by a value rather than skipped"""
+    # the switch on this discriminant
+    sw = None
+    for x in [bb] + list(body.succ[bb]):
+        t = body.term(x)
+        if t["k"] == "switch":
+            pl = op_place(t["op"])
+            if pl is not None and pl[0] == discr_lhs[0]:
+                sw = (x, t)
+                break
+    if sw is None:
+        return False
+    x, t = sw
+    # Result: discriminant 0 = Ok, 1 = Err
+    ok_t = err_t = None
+    for v, tg in t.get("vals") or []:
+        if v == 0:
+            ok_t = tg
+        elif v == 1:
+            err_t = tg
+    other = t.get("otherwise")
+    if ok_t is None and err_t is not None:
+        ok_t = other
+    if err_t is None and ok_t is not None:
+        err_t = other
+    if ok_t is None or err_t is None or ok_t == err_t:
+        return False
+    r_ok, r_err = body.reach([ok_t]), body.reach([err_t])
+    only_ok, only_err = r_ok - r_err, r_err - r_ok
+
+    def assigned(blocks):
+        out = set()
+        for q in blocks:
+            for st in body.stmts(q):
+                if st.get("lhs") and not st["lhs"][1]:
+                    out.add(st["lhs"][0])
+            tt = body.term(q)
+            if tt["k"] == "call" and tt.get("dest") and not tt["dest"][1]:
+                out.add(tt["dest"][0])
+        return out
+
+    # locals that receive the Ok payload itself (plain moves / copies) on the Ok side
+    res_local = None
+    for st in body.stmts(bb):
+        if st.get("lhs") and st["lhs"][0] == discr_lhs[0] and (st.get("rv") or {}).get("k") == "discr":
+            res_local = P(st["rv"]["place"])
+    if res_local is None:
+        return False
+    payload = set()
+    changed = True
+    while changed:
+        changed = False
+        for q in only_ok:
+            for st in body.stmts(q):
+                rv = st.get("rv") or {}
+                if not st.get("lhs") or st["lhs"][1] or rv.get("k") != "use":
+                    continue
+                pl = op_place(rv.get("op"))
+                if pl is None:
+                    continue
+                src_is_payload = (pl[0] == res_local[0] and len(pl[1]) > len(res_local[1]) and "as Ok" in [str(z) for z in pl[1]]) or (pl[0] in payload and not pl[1])
+                if src_is_payload and st["lhs"][0] not in payload:
+                    payload.add(st["lhs"][0])
+                    changed = True
+    common = payload & assigned(only_err)
+    return bool(common)
